@@ -10,7 +10,7 @@ CLI6 = cm.FMT6
 
 def validate_everything(b, tag):
     files = b.xml_files("")
-    b.require(len(files) > 0, "something-written", tag)
+    b.require(len(files) > 0 or tag == "sf-folder-empty", "something-written", tag)
     for f in files:
         errs = b.validate_xml(f)
         b.require(not errs, "schema-valid", "%s: %s invalid: %s" % (tag, f, "; ".join(errs)[:300]))
